@@ -1,0 +1,19 @@
+//! Verification hooks (only compiled with `--cfg chokan_verif`).
+//!
+//! `Nodes::xcheck` iterates a randomly seeded `HashSet`; the base it returns is the only
+//! nondeterministic choice of an insertion. Each call logs the returned base here so that a
+//! model can replay exactly the same history.
+use std::cell::RefCell;
+
+thread_local! {
+    static XCHECK_LOG: RefCell<Vec<i64>> = const { RefCell::new(Vec::new()) };
+}
+
+pub(crate) fn log_xcheck(base: i64) {
+    XCHECK_LOG.with(|l| l.borrow_mut().push(base));
+}
+
+/// Returns and clears the bases returned by `xcheck` on this thread since the last call.
+pub fn take_xcheck_log() -> Vec<i64> {
+    XCHECK_LOG.with(|l| std::mem::take(&mut *l.borrow_mut()))
+}
